@@ -29,7 +29,8 @@ func DecodeBitmap(img *bitmap.Image) (*QRCode, error) {
 	if !bounds.Eq(used.Rect) {
 		return nil, fmt.Errorf("rmqr: image size %dx%d does not match version %s", bounds.Dx(), bounds.Dy(), version)
 	}
-	binimg.Mask(binimg, used, precomputedMask)
+	// unmask into a private copy: the bitmap of the caller is left untouched.
+	binimg = new(internalbitmap.Image).Mask(binimg, used, precomputedMask)
 
 	var buf bitstream.Buffer
 	dy := -1
